@@ -1,4 +1,4 @@
-//go:build !verif
+//go:build !verifhook
 
 package main
 
